@@ -48,11 +48,11 @@ func c04Menu() []sim.TxSpec {
 }
 
 type c04Case struct {
-	Shared json.RawMessage `json:"shared,omitempty"` // a case of the shared history families (all eight transaction types, restarts), judged for nonces only
-	EVMProg []int `json:"evmProg,omitempty"` // EVM-interplay case: a C17 program run in C17's family 2, judged for nonces only
-	Seq     []int `json:"seq"`
-	Cut     int   `json:"cut"` // bit i set = new block after element i
-	Lv      int   `json:"lv"`
+	Shared  json.RawMessage `json:"shared,omitempty"`  // a case of the shared history families (all eight transaction types, restarts), judged for nonces only
+	EVMProg []int           `json:"evmProg,omitempty"` // EVM-interplay case: a C17 program run in C17's family 2, judged for nonces only
+	Seq     []int           `json:"seq"`
+	Cut     int             `json:"cut"` // bit i set = new block after element i
+	Lv      int             `json:"lv"`
 }
 
 type c04 struct {
